@@ -429,6 +429,234 @@ example :
     ∧ (∀ t ∈ s.threads, t.pc = .done) ∧ sent s = [0, 15] ∧ s.last = 25 := by
   refine ⟨⟨by omega, by decide, by omega, by decide, trivial⟩, by decide, by decide, by decide, by decide⟩
 
+/-! ### absolute values that DECREASE: "no single delta exceeds what was actually added" is false of the code
+
+`absolute(v)` in absolute mode is a plain `current.store(v)` (`src_shape`: `current.store`, not `fetch_max`); a flush computes
+`current.wrapping_sub(last)`.  When the value flushed is smaller than the one flushed before, the delta wraps: the agent is
+told the counter grew by about 2^64 although nothing was added.  (`CounterFn::absolute`'s contract: "a caller attempts to
+set an older (smaller) value after the counter has been updated to the latest (larger) value. This method must cope with
+those cases."  `metrics::atomics`' own `AtomicU64` copes with `fetch_max`; this `AtomicCounter` does not.)
+The SUM identity survives (mod 2^64) for arbitrary values: `abs_only_telescopes` has no monotonicity hypothesis. -/
+
+/-- one sequential flush of an absolute-mode counter: the delta it sends is at most the value it flushed — i.e. it did
+    not wrap — EXACTLY WHEN the value did not decrease since the previous flush -/
+theorem abs_flush_delta_le_iff (last cur : Nat) (hl : last < M) (hc : cur < M) :
+    (cur + M - last) % M ≤ cur ↔ last ≤ cur := by
+  simp only [M] at *
+  omega
+
+/-- …and when it did decrease, the delta sent is `2^64 − (decrease)`: larger than every value ever passed in -/
+theorem abs_flush_decrease_wraps (last cur : Nat) (hl : last < M) (h : cur < last) :
+    (cur + M - last) % M = M - (last - cur) ∧ cur < (cur + M - last) % M := by
+  simp only [M] at *
+  omega
+
+/-- deltas sent by a sequential history of complete calls on a fresh counter -/
+def seqDeltas (calls : List Call) : List Nat := (seqAbs calls (false, 0, 0, [])).2.2.2
+
+/-- the largest value passed to `absolute` -/
+def maxAbs : List Call → Nat
+  | [] => 0
+  | .abs v :: r => max v (maxAbs r)
+  | _ :: r => maxAbs r
+
+/-- absolute / flush calls only, values below 2^64 -/
+def AbsFlushOnly (calls : List Call) : Prop :=
+  ∀ c ∈ calls, match c with | .abs v => v < M | .flush => True | .inc _ => False
+
+/-- **KNOWN FINDING K-C10-abs-decreasing (witness)**: `absolute(100); flush; absolute(40); flush` — the second flush sends
+    2^64 − 60.  Replayed on the real code by the harness corpus (`agg run 0 a100+a40,f+f 0.0.0.0.0.1.1.1.1.0.0.0.1.1.1`
+    and stream B's sequential histories). -/
+theorem abs_decreasing_wraps_witness :
+    seqDeltas [.abs 100, .flush, .abs 40, .flush] = [0, M - 60] := by decide
+
+/-- no flush is needed between the two values: `absolute(24); absolute(0); flush` sends 2^64 − 24 (the mode-switching
+    `absolute` stored `last := 24`).  Found by the generator on the real code (stream A, seed 1, case 106). -/
+theorem abs_decreasing_wraps_witness_no_flush_between :
+    seqDeltas [.abs 24, .abs 0, .flush] = [M - 24] := by decide
+
+/-- **the clause "no single delta exceeds what was actually added" at full strength is FALSE of the code** for
+    absolute-only counters (sequential histories suffice): not every delta is bounded by the largest value ever set -/
+theorem abs_no_delta_exceeds_added_fails :
+    ¬ (∀ calls : List Call, AbsFlushOnly calls → ∀ d ∈ seqDeltas calls, d ≤ maxAbs calls) := by
+  intro h
+  have := h [.abs 100, .flush, .abs 40, .flush] (by intro c hc; simp at hc; rcases hc with rfl | rfl | rfl | rfl <;> simp [M])
+    (M - 60) (by rw [abs_decreasing_wraps_witness]; simp)
+  simp [maxAbs, M] at this
+
+/-- sequential histories of `absolute`/`flush` whose values never decrease (starting at `lo`) -/
+def SeqNondec : Nat → List Call → Prop
+  | _, [] => True
+  | lo, .abs v :: r => lo ≤ v ∧ v < M ∧ SeqNondec v r
+  | lo, .flush :: r => SeqNondec lo r
+  | _, .inc _ :: _ => False
+
+/-- **the provable part (sequential)**: when the values never decrease, no delta wraps — every delta any flush sends is at
+    most the value the counter holds, `last ≤ current` throughout, and each flush sends exactly `current − last`.
+    (Racing the flusher: `abs_no_wrapped_delta_outside_window`.) -/
+theorem abs_no_delta_exceeds_added_partial (calls : List Call) : ∀ (last cur : Nat) (ds : List Nat),
+    SeqNondec cur calls → last ≤ cur → cur < M → (∀ d ∈ ds, d ≤ cur) →
+    let r := seqAbs calls (true, last, cur, ds)
+    (∀ d ∈ r.2.2.2, d ≤ r.2.2.1) ∧ r.2.1 ≤ r.2.2.1 ∧ r.2.2.1 < M := by
+  induction calls with
+  | nil => intro last cur ds _ hl hc hd; exact ⟨hd, hl, hc⟩
+  | cons c rest ih =>
+    intro last cur ds hn hl hc hd
+    cases c with
+    | inc n => exact hn.elim
+    | abs v =>
+      obtain ⟨h1, h2, h3⟩ := hn
+      simp only [seqAbs, if_true]
+      rw [Nat.mod_eq_of_lt h2]
+      exact ih last v ds h3 (Nat.le_trans hl h1) h2 (fun d hdm => Nat.le_trans (hd d hdm) h1)
+    | flush =>
+      simp only [seqAbs]
+      refine ih cur cur _ hn (Nat.le_refl _) hc ?_
+      intro d hdm
+      simp only [List.mem_append, List.mem_singleton] at hdm
+      rcases hdm with hdm | rfl
+      · exact hd d hdm
+      · exact (abs_flush_delta_le_iff last cur (Nat.lt_of_le_of_lt hl hc) hc).mpr hl
+
+/-- the same finding on the step machine, in a schedule WITHOUT any K-C10-abs-race window step: the hypothesis
+    `AbsNondec` of `abs_no_wrapped_delta_outside_window` cannot be dropped -/
+theorem abs_decreasing_wraps_outside_window :
+    let progs : List (List Call) := [[.abs 100, .abs 40], [.flush, .flush]]
+    let sched := [0, 0, 0, 0, 0, 1, 1, 1, 1, 0, 0, 0, 1, 1, 1]
+    absRaceCount (init false progs) false sched = 0
+    ∧ (run (init false progs) sched).outcomes = [(M - 60, true), (0, true)]
+    ∧ (∀ t ∈ (run (init false progs) sched).threads, t.pc = .done) := by decide
+
+/-! ### idle bookkeeping per key: many keys (also keys sharing a name), rejected writes -/
+
+theorem contains_congr {a b : List Nat} {k : Nat} (h : k ∈ a ↔ k ∈ b) : a.contains k = b.contains k := by
+  rw [Bool.eq_iff_iff]; simpa using h
+
+/-- a visit of ANOTHER key leaves `is_counter_idle(k)` unchanged -/
+theorem visit_other (idle : List Nat) (k k' delta : Nat) (ok : Bool) (h : k' ≠ k) :
+    (visit idle k' delta ok).1.contains k = idle.contains k := by
+  unfold visit
+  split
+  · split
+    · rfl
+    · apply contains_congr; simp [Ne.symm h]
+  · apply contains_congr; simp [List.mem_filter, Ne.symm h]
+
+/-- a visit of `k` itself decides exactly like the one-key machine, and leaves the mark the one-key machine leaves -/
+theorem visit_same (idle : List Nat) (k delta : Nat) (ok : Bool) :
+    (visit idle k delta ok).2.1 = (StatsdAgg.decide false (idle.contains k) delta 0).1
+    ∧ (visit idle k delta ok).2.2 = ((StatsdAgg.decide false (idle.contains k) delta 0).1 && ok)
+    ∧ (visit idle k delta ok).1.contains k = (StatsdAgg.decide false (idle.contains k) delta 0).2 := by
+  unfold visit StatsdAgg.decide
+  cases hd : (delta == 0) <;> cases hc : idle.contains k <;> simp_all [List.mem_filter]
+
+/-- **the idle set is per key**: whatever other keys are visited in between (any number, any deltas, any write results —
+    including keys with the same NAME and other labels, which are other ids), the decisions and messages for key `k` over
+    any number of flushes are exactly those of the one-key machine run on `k`'s own deltas.  Hence every one-key theorem
+    (`zero_once`, `nonzero_delta_always_sent`) holds for each key of a many-key state. -/
+theorem idle_bookkeeping_per_key (k : Nat) (vs : List Visit) : ∀ (idle : List Nat),
+    ((visits idle vs).filter (fun o => o.1 == k)).map (fun o => (o.2.1, o.2.2.1, o.2.2.2))
+      = oneKey (idle.contains k) ((vs.filter (fun v => v.k == k)).map (fun v => (v.delta, v.ok))) := by
+  induction vs with
+  | nil => intro idle; rfl
+  | cons v r ih =>
+    intro idle
+    by_cases hk : v.k = k
+    · have hs := visit_same idle k v.delta v.ok
+      simp only [visits, hk, List.filter_cons, beq_self_eq_true, if_true, List.map_cons, oneKey]
+      rw [ih, hs.2.2, hs.1, hs.2.1]
+    · have hb : (v.k == k) = false := by simpa using hk
+      simp only [visits, List.filter_cons, hb, Bool.false_eq_true, if_false]
+      rw [ih, visit_other idle k v.k v.delta v.ok hk]
+
+/-- SOURCE FACT: the counter loop of `State::flush` is the `visit` of the model — `counter.flush()` first (which swaps
+    `last`), then the idle test / mark / clear, and the `write_counter` LAST (so a rejected write changes neither); the idle
+    set is a set of whole `Key`s (name and labels), and its three functions are `insert` / `remove` / `contains` of the key
+    itself -/
+theorem src_idle_set :
+    Generated.agg_state_counter_loop_calls
+        = ["counter.flush", "is_counter_idle", "mark_counter_as_idle", "clear_counter_idle", "write_counter"]
+    ∧ Generated.agg_idle_set_type = "HashSet<Key>"
+    ∧ Generated.agg_idle_fns = ["{self.idle_counters.insert(key);}", "{self.idle_counters.remove(key);}",
+        "{self.idle_counters.contains(key)}"] := by decide
+
+/-- forward form of "zero exactly once": a decision is "skip" iff this delta and the previous one are both zero -/
+def ZeroOnce : Bool → List (Nat × Bool × Bool) → Prop
+  | _, [] => True
+  | prevZero, (d, dec, _) :: r => dec = !(d == 0 && prevZero) ∧ ZeroOnce (d == 0) r
+
+theorem oneKey_zero_once (ds : List (Nat × Bool)) : ∀ idle, ZeroOnce idle (oneKey idle ds) := by
+  induction ds with
+  | nil => intro _; trivial
+  | cons x r ih =>
+    intro idle
+    obtain ⟨d, ok⟩ := x
+    simp only [oneKey, ZeroOnce]
+    have h2 : (StatsdAgg.decide false idle d 0).2 = (d == 0) := by
+      unfold StatsdAgg.decide; cases hd : (d == 0) <;> cases idle <;> simp
+    have h1 : (StatsdAgg.decide false idle d 0).1 = !(d == 0 && idle) := by
+      unfold StatsdAgg.decide; cases hd : (d == 0) <;> cases idle <;> simp
+    rw [h2]; exact ⟨h1, ih _⟩
+
+/-- **zero exactly once, per key, in a many-key state** (decisions; from a fresh `FlushState`) -/
+theorem multi_key_zero_once (k : Nat) (vs : List Visit) :
+    ZeroOnce false (((visits [] vs).filter (fun o => o.1 == k)).map (fun o => (o.2.1, o.2.2.1, o.2.2.2))) := by
+  rw [idle_bookkeeping_per_key]; exact oneKey_zero_once _ _
+
+/-- accounting with rejected writes: a message goes out only if it was decided; what the messages carry plus what the
+    rejected writes carried is everything the flushes computed (a skipped delta is zero) -/
+theorem oneKey_accounting (ds : List (Nat × Bool)) : ∀ idle,
+    (∀ o ∈ oneKey idle ds, o.2.2 = true → o.2.1 = true)
+    ∧ (((oneKey idle ds).filter (·.2.2)).map (·.1)).sum
+        + (((oneKey idle ds).filter (fun o => o.2.1 && !o.2.2)).map (·.1)).sum = (ds.map (·.1)).sum := by
+  induction ds with
+  | nil => intro _; exact ⟨(by intro o ho; cases ho), rfl⟩
+  | cons x r ih =>
+    intro idle
+    obtain ⟨d, ok⟩ := x
+    have := ih (StatsdAgg.decide false idle d 0).2
+    refine ⟨?_, ?_⟩
+    · intro o ho
+      simp only [oneKey, List.mem_cons] at ho
+      rcases ho with rfl | ho
+      · intro h; simp only [Bool.and_eq_true] at h; exact h.1
+      · exact this.1 o ho
+    · simp only [oneKey, List.filter_cons, List.map_cons, List.sum_cons]
+      have h2 := this.2
+      unfold StatsdAgg.decide at h2 ⊢
+      cases hd : (d == 0) <;> cases idle <;> cases ok <;> simp [hd] at h2 ⊢ <;> try omega
+      all_goals (have : d = 0 := by simpa using hd); subst this; omega
+
+/-- if the writer accepts every line, messages = decisions (the model of the one-key theorems, where a decided send
+    always goes out) -/
+theorem oneKey_all_accepted (ds : List (Nat × Bool)) (h : ∀ x ∈ ds, x.2 = true) : ∀ idle,
+    ∀ o ∈ oneKey idle ds, o.2.2 = o.2.1 := by
+  induction ds with
+  | nil => intro _ o ho; cases ho
+  | cons x r ih =>
+    intro idle o ho
+    obtain ⟨d, ok⟩ := x
+    have hok : ok = true := h (d, ok) (by simp)
+    simp only [oneKey, List.mem_cons] at ho
+    rcases ho with rfl | ho
+    · simp [hok]
+    · exact ih (fun x hx => h x (by simp [hx])) _ o ho
+
+/-- **a rejected write loses its delta, and a rejected zero is never sent**: key 1's line is too long twice (delta 5, then
+    the zero), then fits: the 5 is decided but no message carries it (`last` was already swapped: no later flush makes up
+    for it), the zero is decided, rejected, the key is marked idle all the same, and the third flush — whose line would
+    fit — skips it: "sent as zero exactly once" becomes "at most once".  Key 2 (same flushes) is unaffected. -/
+theorem rejected_write_loses_delta_and_zero :
+    visits [] [⟨1, 5, false⟩, ⟨2, 3, true⟩, ⟨1, 0, false⟩, ⟨2, 0, true⟩, ⟨1, 0, true⟩, ⟨2, 0, true⟩]
+      = [(1, 5, true, false), (2, 3, true, true), (1, 0, true, false), (2, 0, true, true),
+         (1, 0, false, false), (2, 0, false, false)] := by decide
+
+/-- two keys sharing a name (ids 1 and 2) with one idle and the other active: the idle one's zero is sent once -/
+example :
+    visits [] [⟨1, 0, true⟩, ⟨2, 4, true⟩, ⟨1, 0, true⟩, ⟨2, 4, true⟩, ⟨1, 0, true⟩, ⟨2, 0, true⟩]
+      = [(1, 0, true, true), (2, 4, true, true), (1, 0, false, false), (2, 4, true, true),
+         (1, 0, false, false), (2, 0, true, true)] := by decide
+
 /-! ### non-vacuity -/
 
 example : IncFlush 2 [[.inc 3, .inc 4], [.inc 5], [.flush, .flush, .flush]] := by
